@@ -11,6 +11,8 @@ use crate::c10::gen_optimizer;
 use crate::engine::*;
 use crate::net::*;
 use crate::refmodel::{self as rm, ActK, ObjK};
+#[allow(unused_imports)]
+use crate::net::Acc;
 use crate::tape::{payload, Tape};
 use crate::tens;
 use crate::{ensure, fail};
@@ -30,6 +32,10 @@ struct Case {
     wseed: u32,
     dseed: u32,
     fitted: bool,
+    /// number of consecutive learn() calls on the same network (step numbers restart with each call)
+    calls: usize,
+    /// additivity sub-check on a network with a feedback block (plain SGD)
+    additive: bool,
 }
 
 fn decode(tape: &[u32]) -> Case {
@@ -52,7 +58,36 @@ fn decode(tape: &[u32]) -> Case {
     // "fitted" data: the targets of the first group equal the initial predictions bit for bit
     // (loss exactly 0, zero gradient): one optimizer step per group must still happen
     let fitted = t.chance(1, 6);
-    Case { spec, kind, obj, n, batch, epochs: t.usize(1, 4) as i32, wseed: t.raw(), dseed: t.raw(), fitted }
+    let calls = if t.chance(1, 4) { 2 } else { 1 };
+    let additive = t.chance(1, 8);
+    let mut case = Case { spec, kind, obj, n, batch, epochs: t.usize(1, 4) as i32, wseed: t.raw(), dseed: t.raw(), fitted, calls, additive };
+    if additive {
+        // dense -> feedback block with mixed bias settings -> dense, plain SGD, two samples in one group
+        let w = t.usize(1, 4);
+        let block = LayerSpec::Feedback {
+            layers: vec![
+                LayerSpec::Dense { out: t.usize(1, 4), act: gen_act(&mut t, &o), bias: t.bool(), dropout: None },
+                LayerSpec::Dense { out: w, act: gen_act(&mut t, &o), bias: t.bool(), dropout: None },
+            ],
+            loops: t.usize(1, 3),
+            inskips: false,
+            outskips: false,
+            acc: Acc::Mean,
+        };
+        case.spec = NetSpec {
+            input: vec![t.usize(1, 4)],
+            layers: vec![
+                LayerSpec::Dense { out: w, act: gen_act(&mut t, &o), bias: t.bool(), dropout: None },
+                block,
+                LayerSpec::Dense { out: t.usize(1, 3), act: gen_act(&mut t, &o), bias: t.bool(), dropout: None },
+            ],
+        };
+        case.obj = ObjK::MSE;
+        case.kind = Kind::SGD { lr: [0.05f32, 0.1, 0.01][t.pick(3)], decay: None };
+        case.n = t.usize(2, 4);
+        case.batch = case.n;
+    }
+    case
 }
 
 /// The optimizer's slot layout, as `Network::set_optimizer` builds it (layers in reverse order).
@@ -75,7 +110,67 @@ fn slot_vectors(net: &neurons::network::Network) -> Vec<Vec<Vec<Tensor>>> {
     v
 }
 
+/// Plain SGD is linear in the gradient sum: one step on the group {x1..xn} moves every parameter by
+/// the sum of the moves of the n single-sample steps from the same start (also through a feedback
+/// block, whose mean re-coupling is linear too).
+fn check_additive(case: &Case, ev: &mut CaseEv) -> CheckResult {
+    let spec = &case.spec;
+    ev.class("SGD additivity through a feedback block");
+    let n_in = count(&spec.input);
+    let out_dims = final_dims(spec);
+    let xs: Vec<Tensor> = (0..case.n).map(|i| tens::build(&spec.input, &payload(case.dseed.wrapping_add(i as u32 * 101), 1, n_in, 1.0))).collect();
+    let ys: Vec<Tensor> = (0..case.n).map(|i| tens::build(&out_dims, &payload(case.dseed.wrapping_add(9000 + i as u32 * 37), 1, count(&out_dims), 1.0))).collect();
+    let net0 = build(spec).map_err(|p| Fail::new(format!("valid network rejected: {} ({:?})", p, spec)))?;
+    let ps0 = seeded_params(&net0, spec, case.wseed, 1, 1.0);
+    let train = |idx: &[usize]| -> Result<Vec<Vec<f32>>, String> {
+        let mut net = build(spec)?;
+        apply_params(&mut net, &ps0);
+        net.set_objective(lib_obj(ObjK::MSE), None);
+        let kind = case.kind.clone();
+        catch(std::panic::AssertUnwindSafe(|| net.set_optimizer(kind.create())))?;
+        let xr: Vec<&Tensor> = idx.iter().map(|i| &xs[*i]).collect();
+        let yr: Vec<&Tensor> = idx.iter().map(|i| &ys[*i]).collect();
+        catch(std::panic::AssertUnwindSafe(|| net.learn(&xr, &yr, None, idx.len(), 1, None)))?;
+        Ok(collect_params(&net).iter().map(|(_, t)| tens::flat(t)).collect())
+    };
+    let all: Vec<usize> = (0..case.n).collect();
+    let together = match train(&all) {
+        Ok(v) => v,
+        Err(p) => {
+            if p.contains("Loss is NaN") {
+                ev.discard = Some("training diverged to NaN");
+                return Ok(());
+            }
+            fail!("learn panicked: {} ({:?})", p, spec);
+        }
+    };
+    let singles: Vec<Vec<Vec<f32>>> = (0..case.n).map(|i| train(&[i])).collect::<Result<_, _>>().map_err(Fail::new)?;
+    let w0: Vec<Vec<f32>> = ps0.iter().map(|(_, t)| tens::flat(t)).collect();
+    let mut worst = 0.0f64;
+    for (k, ((r, _), w)) in ps0.iter().zip(w0.iter()).enumerate() {
+        for e in 0..w.len() {
+            let want: f64 = w[e] as f64 + singles.iter().map(|s| s[k][e] as f64 - w[e] as f64).sum::<f64>();
+            let got = together[k][e] as f64;
+            let scale = singles.iter().map(|s| (s[k][e] as f64 - w[e] as f64).abs()).sum::<f64>() + (w[e] as f64).abs();
+            let tol = 2e-5 * scale + 1e-6;
+            worst = worst.max((got - want).abs() / tol);
+            ensure!(
+                (got - want).abs() <= tol,
+                "one SGD step on a group of {} samples moved parameter {:?}[{}] to {:e}; the sum of the {} single-sample steps from the same weights gives {:e} (every sample must contribute its gradient exactly once); spec {:?}",
+                case.n, r, e, got, case.n, want, spec
+            );
+        }
+    }
+    ev.ratio("sgd_additivity", worst);
+    ev.nontrivial = true;
+    ev.set_sig(&(spec, case.n, "additive"));
+    Ok(())
+}
+
 fn check(case: &Case, ev: &mut CaseEv) -> CheckResult {
+    if case.additive {
+        return check_additive(case, ev);
+    }
     let spec = &case.spec;
     ev.class(format!("optimizer:{}", case.kind.name()));
     ev.class(format!("objective:{:?}", case.obj));
@@ -108,7 +203,19 @@ fn check(case: &Case, ev: &mut CaseEv) -> CheckResult {
     let (xr, yr): (Vec<&Tensor>, Vec<&Tensor>) = (xs.iter().collect(), ys.iter().collect());
 
     // --- library
-    let res = catch(std::panic::AssertUnwindSafe(|| net.learn(&xr, &yr, None, case.batch, case.epochs, None)));
+    if case.calls > 1 {
+        ev.class("two learn() calls");
+    }
+    let res = catch(std::panic::AssertUnwindSafe(|| {
+        let mut all = (Vec::new(), Vec::new(), Vec::new());
+        for _ in 0..case.calls {
+            let (a, b, c) = net.learn(&xr, &yr, None, case.batch, case.epochs, None);
+            all.0.extend(a);
+            all.1.extend(b);
+            all.2.extend(c);
+        }
+        all
+    }));
     let (tl, vl, va) = match res {
         Ok(r) => r,
         Err(p) => {
@@ -119,7 +226,7 @@ fn check(case: &Case, ev: &mut CaseEv) -> CheckResult {
             fail!("learn panicked: {} ({:?}, N {}, B {}, E {})", p, spec, case.n, case.batch, case.epochs);
         }
     };
-    ensure!(tl.len() == case.epochs as usize && vl.is_empty() && va.is_empty(), "learn returned {} training losses for {} epochs ({} / {} validation entries without validation data)", tl.len(), case.epochs, vl.len(), va.len());
+    ensure!(tl.len() == case.epochs as usize * case.calls && vl.is_empty() && va.is_empty(), "learn returned {} training losses for {} epochs ({} / {} validation entries without validation data)", tl.len(), case.epochs, vl.len(), va.len());
     let lib_final = collect_params(&net);
 
     // --- replayed reference trainer
@@ -130,6 +237,7 @@ fn check(case: &Case, ev: &mut CaseEv) -> CheckResult {
     let mut ref_w: Vec<(PRef, Tensor)> = ps0.clone();
     let nl = spec.layers.len();
     let mut ref_losses: Vec<f32> = Vec::new();
+    for _call in 0..case.calls {
     for epoch in 1..=case.epochs {
         let mut loss_epoch = 0.0f32;
         for g in 0..groups {
@@ -162,6 +270,7 @@ fn check(case: &Case, ev: &mut CaseEv) -> CheckResult {
             }
         }
         ref_losses.push(loss_epoch / groups as f32);
+    }
     }
     if ref_w.iter().any(|(_, t)| tens::flat(t).iter().any(|v| !v.is_finite())) || ref_losses.iter().any(|l| !l.is_finite()) {
         ev.discard = Some("non-finite reference result");
@@ -215,7 +324,7 @@ impl Prop for C04 {
         Some(3)
     }
     fn rule(&self) -> String {
-        "tape-decoded training run: 1-3-layer network (dense, convolution, deconvolution, max-pool mixes, no dropout), one of five optimizers with option variants, one of seven objectives (sigmoid head for the probability objectives), N = 1..12 distinct samples (1/8 of the cases: N = 65..140 with B >= 60, i.e. groups beyond the internal 64-sample chunk), B = 1..N+3 (B = 1, B not dividing N, B > N all occur), in 1/6 of the cases the first group's targets equal the initial predictions bit for bit (zero loss and gradient), E = 1..4 epochs, known start weights. Oracle: replayed reference trainer (groups of B in order, per-sample gradients at the pre-step weights from a never-trained second instance, summed in order, one step of a separately constructed optimizer with step number = epoch, loss = mean over groups of mean per-sample loss); final weights and the loss vector must agree within 1e-4 relative / 1e-6 absolute (bit-identical today). Non-trivial: >= 2 groups, B >= 2 and (B does not divide N or E >= 2). Distinct = (architecture, N, B, E, optimizer, objective).".into()
+        "tape-decoded training run: 1-3-layer network (dense, convolution, deconvolution, max-pool mixes, no dropout), one of five optimizers with option variants, one of seven objectives (sigmoid head for the probability objectives), N = 1..12 distinct samples (1/8 of the cases: N = 65..140 with B >= 60, i.e. groups beyond the internal 64-sample chunk), B = 1..N+3 (B = 1, B not dividing N, B > N all occur), in 1/6 of the cases the first group's targets equal the initial predictions bit for bit (zero loss and gradient), E = 1..4 epochs, known start weights; one run in four calls learn() twice on the same network (step numbers restart at 1 in every call); one case in eight is the additivity sub-check: plain SGD, a dense -> feedback block (mixed bias settings) -> dense network, one group of 2-4 samples must move every parameter by the sum of the single-sample steps. Oracle: replayed reference trainer (groups of B in order, per-sample gradients at the pre-step weights from a never-trained second instance, summed in order, one step of a separately constructed optimizer with step number = epoch, loss = mean over groups of mean per-sample loss); final weights and the loss vector must agree within 1e-4 relative / 1e-6 absolute (bit-identical today). Non-trivial: >= 2 groups, B >= 2 and (B does not divide N or E >= 2). Distinct = (architecture, N, B, E, optimizer, objective).".into()
     }
     fn run_case(&self, tape: &[u32], ev: &mut CaseEv) -> CheckResult {
         check(&decode(tape), ev)
